@@ -208,10 +208,12 @@ func (e *Engine) intrinsic3(name string, args []any) (any, bool) {
 	case "Now": // harness reads the clock
 		return e.clock(), true
 	case "TimeFromNow": // clock reading at harness start + symbolic offset (ns)
+		e.bounds[args[0].(string)+": instant = base + offset, |offset| <= 4e18 ns"] = true
 		off := e.input("Int", args[0].(string))
 		e.S.Send(fmt.Sprintf("(assert (and (<= (- 4000000000000000000) %s) (<= %s 4000000000000000000)))", off, off))
 		return TimeV{"(+ " + args[1].(TimeV).E + " " + off + ")"}, true
 	case "Dur":
+		e.bounds[fmt.Sprintf("%s: duration in [%s, %s] ns", args[0].(string), intE(args[1]), intE(args[2]))] = true
 		d := e.input("Int", args[0].(string))
 		e.S.Send(fmt.Sprintf("(assert (and (<= %s %s) (<= %s %s)))", intE(args[1]), d, d, intE(args[2])))
 		return SymInt{d}, true
